@@ -554,7 +554,9 @@ func runC16(t *testing.T, spec RunSpec) *Verdict {
 				s.Probe("tasks-alive-after-failed-call")
 			}
 			if !m.failed {
-				if nc := len(env.vm.Cores.Cores); nc != 0 {
+				if nc, ok := vmCoreCount(env.vm); !ok {
+					s.Probe("core-list-not-observable")
+				} else if nc != 0 {
 					failNow("wrong-result", "no-residue-cores", "core-list", fmt.Sprintf("after completed call #%d %s the VM still lists %d core(s)", k, op.desc, nc))
 					return
 				}
@@ -572,14 +574,16 @@ func runC16(t *testing.T, spec RunSpec) *Verdict {
 				}
 				if core != nil {
 					// residue of the finished core: probe only (a dead core cannot change a later call)
-					if len(core.CallStack) != 0 {
-						s.Probe("residue-callstack")
-					}
-					if len(core.ExceptionCatchLabels) != 0 {
-						s.Probe("residue-handlers")
-					}
-					if core.MemoryPointer != 0 {
-						s.Probe("residue-mempointer")
+					if call, _, mem, handlers, ok := coreLevels(core); ok {
+						if call != 0 {
+							s.Probe("residue-callstack")
+						}
+						if handlers != 0 {
+							s.Probe("residue-handlers")
+						}
+						if mem != 0 {
+							s.Probe("residue-mempointer")
+						}
 					}
 				}
 			} else if held := s.LocksHeld(); len(held) > 0 {
